@@ -87,6 +87,13 @@ class BasicConverter:
         loaded: dict[str, Any] = json.loads(data)
         args = [loaded.pop(name, self.args[name]) for name in self.args]
         kwargs = {name: loaded.pop(name, self.kwargs[name]) for name in self.kwargs}
+        missing = [
+            name
+            for name, value in (*zip(self.args, args), *kwargs.items())
+            if value is inspect.Parameter.empty
+        ]
+        if missing:
+            raise ValueError(f"Missing arguments without defaults: {', '.join(missing)}.")
         if self.all_kwargs:
             kwargs.update(loaded)
         elif self.all_args:
